@@ -1,5 +1,7 @@
 import NavisModel.Model.Affine
 import NavisModel.Model.Bridge
+import NavisModel.Model.Tps
+import NavisModel.Gen.Bridge
 import NavisModel.Drv.Proto
 /-!
 Line protocol for C08 (`c08.<cmd> <payload>`).  Rationals travel as `n` or `n/d`, points as `x,y,z`
@@ -9,7 +11,14 @@ or `nan`, lists of items are `;`-separated, sections `|`-separated.  Templates a
 * `seq ts | rows`  (`A:<12 rats>` / `C:<k>`) → rows after `TransformSequence.xform`
 * `negseq ts | rows`                        → rows after `(-seq).xform` (or `ERR:singular`)
 * `graph recip | regs`                      → edges `u,v,key,ridx,dir,weight` sorted by (u,v,key)
-* `find mode recip | regs | s,t | via | avoid | shortest | enum` → path or `ERR:<kind>` (mode `w` = as written, `r` = repaired)
+* `find mode recip | regs | s,t | via | avoid | shortest | enum` → path or `ERR:<kind>` (mode `s` = the CURRENT source:
+  short-cut guard and loop body as extracted into `Gen/Bridge.lean`; `r` = repaired; `w` = HISTORICAL, as written before `0eaf94d`)
+* `invertible <ClassName>` / `invertible seq:<Cls>,<Cls>,…` → `1` / `0`: the `invertible` flag `register_transform` of the
+  current source gives such a transform (class table + `invertibleOf` from `Gen/Bridge.lean`), or `?`
+* `seqnest items | rows` (items `;`-separated: a member token, or `[tok+tok+…]` = a sequence / list) → `<#members> | rows`
+* `seqbuild members | rows` (`M:<12 rats>` mergeable / `A:<12 rats>` / `C:<k>`) → `<#members after merging> | rows`
+* `tps eps | src | tgt | K | W | A | pts | Kp | out` → `<solvesB> <landmarks within eps> <xform rows within eps> <max residual>`
+* `tpscache ops` (`M:s,t` / `U:i` / `C:i` / `N:i`) → `s>t` per use (whose coefficients were observed), then `N=<pool size>`
 * `picks recip | regs | path`               → `ridx:dir,…` (choice among parallel edges as written)
 * `check recip | regs | s,t | via | avoid | path` → `<checkPath> <#admissible> <minweight> <pathweight>`
 * `xbrain recip | regs | frames | mats | path | rows` → `cons | direct rows | rows along the path`
@@ -17,6 +26,10 @@ or `nan`, lists of items are `;`-separated, sections `|`-separated.  Templates a
 -/
 namespace Navis.Drv.C08
 open Navis.Affine Navis.Bridge Navis.Proto
+
+/-- Graph of the CURRENT source: weights as extracted. -/
+def graphSrc {τ} (neg : τ → τ) (regs : List (Reg τ)) (recip : Option Rat) : List (GEdge τ) :=
+  bridgingGraphOf Navis.Gen.Bridge.fwdWeight Navis.Gen.Bridge.revNumberWeight neg regs recip
 
 def parseRat (s : String) : Option Rat :=
   match (trim s).splitOn "/" with
@@ -144,6 +157,46 @@ def parseOp (s : String) : Option (Op Nat) :=
     | _ => none
   | _ => none
 
+/-- Members for `seqbuild`: `mrg` members merge with a `mrg` predecessor (matrix product), the others never. -/
+inductive MMember where
+  | mrg (T : Aff)
+  | plain (m : Member)
+
+def parseMMember (s : String) : Option MMember :=
+  match (trim s).splitOn ":" with
+  | ["M", m] => (parseAff m).map .mrg
+  | _ => (parseMember s).map .plain
+
+def MMember.fn : MMember → Pt → Option Pt
+  | .mrg T => fun p => some (xform T p)
+  | .plain m => m.fn
+
+/-- `a.append(b)`: succeeds for two mergeable members (`a` becomes "first `a`, then `b`"), `NotImplementedError` otherwise. -/
+def mergeM : MMember → MMember → Option MMember
+  | .mrg a, .mrg b => some (.mrg (comp a b))
+  | _, _ => none
+
+/-- `[tok+tok]` = a sequence (its members, already built with `seqBuild`) / a list; otherwise one member. -/
+def parseItem (s : String) : Option (Item MMember) :=
+  let s := trim s
+  if s.startsWith "[" then do
+    let inner := ((s.drop 1).dropEnd 1).copy
+    let ms ← (items inner "+").mapM parseMMember
+    pure (.many (seqBuild mergeM ms))
+  else (parseMMember s).map .one
+
+def parsePts (s : String) : Option (List Pt) := do
+  let rows ← parseRows s
+  rows.mapM id
+
+def parseTpsOp (s : String) : Option Navis.Tps.Op :=
+  match (trim s).splitOn ":" with
+  | ["M", st] => (parsePair st).map fun (a, b) => .mk a b
+  | ["U", i] => i.toNat?.map .use
+  | ["C", i] => i.toNat?.map .copy
+  | ["N", i] => i.toNat?.map .neg
+  | _ => none
+
 def run (cmd : String) (rest : String) : Option String :=
   let secs := (rest.splitOn "|").map trim
   match cmd, secs with
@@ -168,7 +221,7 @@ def run (cmd : String) (rest : String) : Option String :=
   | "graph", [recip, regs] => do
     let recip ← parseRecip recip
     let regs ← parseRegs regs
-    pure (showGraph (bridgingGraph id regs recip))
+    pure (showGraph (graphSrc id regs recip))
   | "find", [hd, regs, st, via, avoid, sh, enum] => do
     let (mode, recip) ← match words hd with
       | [m, r] => some (m, r)
@@ -181,8 +234,10 @@ def run (cmd : String) (rest : String) : Option String :=
     let sh ← if sh == "-" then some none else (parseNats sh).map some
     let enum ← (items enum ";").mapM parseNats
     let G := bridgingGraph id regs recip
-    let acc := if mode == "w" then acceptAsWritten else acceptRepaired
-    match findPath acc G s t via avoid sh enum with
+    let res := if mode == "s" then
+        findPathG Navis.Gen.Bridge.shortcutTree (acceptOf Navis.Gen.Bridge.acceptTree) G s t via avoid sh enum
+      else findPath (if mode == "w" then acceptAsWritten else acceptRepaired) G s t via avoid sh enum
+    match res with
     | .ok p => pure (showNats p)
     | .error e => pure (showErr e)
   | "picks", [recip, regs, path] => do
@@ -226,6 +281,54 @@ def run (cmd : String) (rest : String) : Option String :=
       | some es => showRows (seqXform (es.map fun (e : GEdge Aff) => liftRow fun q => some (xform e.xf q)) rows)
       | none => "ERR:nochain"
     pure s!"{if cons then 1 else 0} | {showRows direct} | {along}"
+  | "invertible", [c] =>
+    let c := trim c
+    let tbl := Navis.Gen.Bridge.negClasses
+    let seqNeg := (List.lookup "TransformSequence" tbl).getD false
+    if c.startsWith "seq:" then
+      match (items (c.drop 4).copy ",").mapM (fun x => List.lookup x tbl) with
+      | some ms => pure (if recordInvertible Navis.Gen.Bridge.invertibleOf seqNeg (.seq ms) then "1" else "0")
+      | none => pure "?"
+    else
+      match List.lookup c tbl with
+      | some b => pure (if recordInvertible Navis.Gen.Bridge.invertibleOf seqNeg (.plain b) then "1" else "0")
+      | none => pure "?"
+  | "seqnest", [its, rows] => do
+    let its ← (items its ";").mapM parseItem
+    let rows ← parseRows rows
+    let built := seqBuildItems mergeM its
+    pure s!"{built.length} | {showRows (seqXform (built.map fun m => liftRow m.fn) rows)}"
+  | "seqbuild", [ts, rows] => do
+    let ts ← (items ts ";").mapM parseMMember
+    let rows ← parseRows rows
+    let built := seqBuild mergeM ts
+    pure s!"{built.length} | {showRows (seqXform (built.map fun m => liftRow m.fn) rows)}"
+  | "tps", [eps, src, tgt, K, W, A, pts, Kp, out] => do
+    let eps ← parseRat eps
+    let src ← parsePts src
+    let tgt ← parsePts tgt
+    let K ← (items K ";").mapM fun r => (items r ",").mapM parseRat
+    let W ← parsePts W
+    let A ← parsePts A
+    let A ← match A with
+      | [a0, a1, a2, a3] => some (Navis.Tps.AffCoef.mk a0 a1 a2 a3)
+      | _ => none
+    let pts ← parsePts pts
+    let Kp ← (items Kp ";").mapM fun r => (items r ",").mapM parseRat
+    let out ← parsePts out
+    let solves := Navis.Tps.solvesB eps K src tgt W A
+    let atLm := List.zipWith (fun kr s => Navis.Tps.add (Navis.Tps.affPart A s) (Navis.Tps.dotRows kr W)) K src
+    let lmOk := Navis.Tps.closeAll eps atLm tgt
+    let atPts := List.zipWith (fun kr p => Navis.Tps.add (Navis.Tps.affPart A p) (Navis.Tps.dotRows kr W)) Kp pts
+    let ptsOk := Navis.Tps.closeAll eps atPts out
+    let res := Navis.Tps.maxResidual (Navis.Tps.systemTop K src W A) tgt
+    let b := fun (x : Bool) => if x then "1" else "0"
+    pure s!"{b solves} {b lmOk} {b ptsOk} {showRat res}"
+  | "tpscache", [ops] => do
+    let ops ← (items ops ";").mapM parseTpsOp
+    let (cs, pool) := Navis.Tps.run Navis.Gen.Bridge.tpsNegSwaps Navis.Gen.Bridge.tpsNegFresh
+      Navis.Gen.Bridge.tpsCopyCarries (fun s t => (s, t)) [] ops
+    pure (";".intercalate (cs.map (fun (c : Nat × Nat) => s!"{c.1}>{c.2}") ++ [s!"N={pool.length}"]))
   | "cache", [ops] => do
     let ops ← (items ops ";").mapM parseOp
     let (gs, st) := runOps id RegState.empty ops
